@@ -165,9 +165,17 @@ func (s *SMS) HijackAuth(w http.ResponseWriter, r *http.Request, handled bool) (
 		return false, nil
 	}
 
+	prevPID, _ := authboss.GetSession(r, SessionSMSPendingPID)
 	authboss.PutSession(w, SessionSMSPendingPID, user.GetPID())
 	err := s.SendCodeToUser(w, r, user.GetPID(), number)
-	if err != nil && err != errSMSRateLimit {
+	if err == errSMSRateLimit {
+		// No new code was sent. The code still in the session (if any) was
+		// sent for someone else unless this same user was already pending:
+		// it must not be able to complete this user's login.
+		if prevPID != user.GetPID() {
+			authboss.DelSession(w, SessionSMSSecret)
+		}
+	} else if err != nil {
 		return false, err
 	}
 
